@@ -61,7 +61,7 @@ func (s *Spec) Atoms(o LayoutOpts) []Atom {
 			}
 			a[len(a)-1].Canon = " "
 			if t.Num != 0 {
-				add('W', itoa(t.Num))
+				add('W', t.numText())
 			}
 			if t.Alias != "" {
 				add('O', "\""+t.Alias+"\"")
@@ -85,7 +85,7 @@ func (s *Spec) Atoms(o LayoutOpts) []Atom {
 			add('W', t.Name)
 		}
 		if t.Num != 0 {
-			add('W', itoa(t.Num))
+			add('W', t.numText())
 		}
 		if t.Alias != "" {
 			add('O', "\""+t.Alias+"\"")
@@ -108,6 +108,10 @@ func (s *Spec) Atoms(o LayoutOpts) []Atom {
 				add('W', t)
 			}
 			prevLit = IsLit(t)
+			if i < len(p.Nums) && p.Nums[i] != 0 {
+				add('W', itoa(p.Nums[i]))
+				prevLit = false
+			}
 		}
 	}
 	for _, t := range s.Types {
